@@ -4,8 +4,456 @@ import (
 	"fmt"
 	"go/ast"
 	"go/token"
+	"strconv"
 )
 
+// Mode C instrumentation. All rewrites work on statement lists (block, case and comm-clause bodies):
+//
+//	go f(a, b)                       -> { _vf, _va0, _va1 := f, a, b; vsched.Go(func() { _vf(_va0, _va1) }) }
+//	select without default           -> vsched.Point; for _vd := false; !_vd; { _vd = true; select { ...; default: _vd = false; vsched.WaitExternal() } }
+//	select with default              -> preceded by vsched.Point("select")
+//	<-ch (statement)                 -> same loop around select { case <-ch: }
+//	for k := range x.mapField        -> for _, k := range vsched.Keys(x.mapField)
+//	x.mapField[k] = v                -> followed by vsched.Note(k)
+//	stmt mentioning a mutable field  -> preceded by vsched.Access("file:line field")
+//
+// Anything else that can block or spawn (labelled blocking select, continue inside a rewritten select, receive in an
+// expression, send statement, range with key and value over a tracked map) is refused.
+type cinst struct {
+	fset    *token.FileSet
+	rel     string
+	tracked map[string]bool // mutable field names
+	mapFld  map[string]bool // map-typed field names
+	n       int
+	err     error
+	gen     map[ast.Stmt]bool // statements produced by the rewrite itself
+}
+
 func instrumentCImpl(fset *token.FileSet, f *ast.File, rel string) error {
-	return fmt.Errorf("mode C not implemented yet")
+	ci := &cinst{fset: fset, rel: rel, tracked: map[string]bool{}, mapFld: map[string]bool{}, gen: map[ast.Stmt]bool{}}
+	ci.analyse(f)
+	ast.Inspect(f, func(n ast.Node) bool {
+		switch x := n.(type) {
+		case *ast.BlockStmt:
+			x.List = ci.list(x.List)
+		case *ast.CaseClause:
+			x.Body = ci.list(x.Body)
+		case *ast.CommClause:
+			x.Body = ci.list(x.Body)
+		}
+		return ci.err == nil
+	})
+	if ci.err != nil {
+		return ci.err
+	}
+	if err := ci.verify(f); err != nil {
+		return err
+	}
+	addImport(f, shimBase+"vsched", "vsched")
+	return nil
+}
+
+func addImport(f *ast.File, path, name string) {
+	for _, imp := range f.Imports {
+		if p, _ := strconv.Unquote(imp.Path.Value); p == path {
+			return
+		}
+	}
+	spec := &ast.ImportSpec{Name: ast.NewIdent(name), Path: &ast.BasicLit{Kind: token.STRING, Value: strconv.Quote(path)}}
+	for _, d := range f.Decls {
+		if gd, ok := d.(*ast.GenDecl); ok && gd.Tok == token.IMPORT {
+			gd.Specs = append(gd.Specs, spec)
+			if !gd.Lparen.IsValid() {
+				gd.Lparen = gd.Pos()
+				gd.Rparen = gd.End()
+			}
+			f.Imports = append(f.Imports, spec)
+			return
+		}
+	}
+	gd := &ast.GenDecl{Tok: token.IMPORT, Specs: []ast.Spec{spec}}
+	f.Decls = append([]ast.Decl{gd}, f.Decls...)
+	f.Imports = append(f.Imports, spec)
+}
+
+// analyse finds the struct types declared in the file, their map-typed fields, and the fields assigned outside
+// constructor contexts (top-level functions without receiver that return one of the structs or a function value).
+func (ci *cinst) analyse(f *ast.File) {
+	structs := map[string]map[string]bool{}
+	for _, d := range f.Decls {
+		gd, ok := d.(*ast.GenDecl)
+		if !ok || gd.Tok != token.TYPE {
+			continue
+		}
+		for _, sp := range gd.Specs {
+			ts := sp.(*ast.TypeSpec)
+			st, ok := ts.Type.(*ast.StructType)
+			if !ok {
+				continue
+			}
+			fields := map[string]bool{}
+			for _, fl := range st.Fields.List {
+				for _, nm := range fl.Names {
+					fields[nm.Name] = true
+					if _, isMap := fl.Type.(*ast.MapType); isMap {
+						ci.mapFld[nm.Name] = true
+						ci.tracked[nm.Name] = true
+					}
+				}
+			}
+			structs[ts.Name.Name] = fields
+		}
+	}
+	allFields := map[string]bool{}
+	for _, fs := range structs {
+		for k := range fs {
+			allFields[k] = true
+		}
+	}
+	isCtor := func(fd *ast.FuncDecl) bool {
+		if fd.Recv != nil || fd.Type.Results == nil {
+			return false
+		}
+		for _, r := range fd.Type.Results.List {
+			t := r.Type
+			if st, ok := t.(*ast.StarExpr); ok {
+				t = st.X
+			}
+			switch tt := t.(type) {
+			case *ast.Ident:
+				if _, ok := structs[tt.Name]; ok {
+					return true
+				}
+				if len(tt.Name) > 4 && tt.Name[len(tt.Name)-4:] == "Func" { // named option-function types
+					return true
+				}
+			case *ast.FuncType:
+				return true
+			}
+		}
+		return false
+	}
+	for _, d := range f.Decls {
+		fd, ok := d.(*ast.FuncDecl)
+		if !ok || fd.Body == nil || isCtor(fd) {
+			continue
+		}
+		ast.Inspect(fd.Body, func(n ast.Node) bool {
+			mark := func(e ast.Expr) {
+				// x.f = ..., x.f[k] = ..., x.f.g = ... : the outermost selector on a declared field name
+				for {
+					switch t := e.(type) {
+					case *ast.IndexExpr:
+						e = t.X
+						continue
+					case *ast.ParenExpr:
+						e = t.X
+						continue
+					case *ast.StarExpr:
+						e = t.X
+						continue
+					}
+					break
+				}
+				if se, ok := e.(*ast.SelectorExpr); ok && allFields[se.Sel.Name] {
+					ci.tracked[se.Sel.Name] = true
+				}
+			}
+			switch x := n.(type) {
+			case *ast.AssignStmt:
+				if x.Tok != token.DEFINE {
+					for _, l := range x.Lhs {
+						mark(l)
+					}
+				}
+			case *ast.IncDecStmt:
+				mark(x.X)
+			case *ast.CallExpr:
+				if id, ok := x.Fun.(*ast.Ident); ok && id.Name == "delete" && len(x.Args) > 0 {
+					mark(x.Args[0])
+				}
+			}
+			return true
+		})
+	}
+}
+
+func (ci *cinst) fail(pos token.Pos, format string, a ...any) {
+	if ci.err == nil {
+		ci.err = fmt.Errorf("%s: %s", ci.fset.Position(pos), fmt.Sprintf(format, a...))
+	}
+}
+
+func call(pkg, fn string, args ...ast.Expr) *ast.ExprStmt {
+	return &ast.ExprStmt{X: &ast.CallExpr{Fun: &ast.SelectorExpr{X: ast.NewIdent(pkg), Sel: ast.NewIdent(fn)}, Args: args}}
+}
+
+func strLit(s string) ast.Expr { return &ast.BasicLit{Kind: token.STRING, Value: strconv.Quote(s)} }
+
+// mentions returns the tracked field names that the expressions of n mention, not descending into function literals
+// or nested statement bodies.
+func (ci *cinst) mentions(nodes ...ast.Node) []string {
+	seen := map[string]bool{}
+	var out []string
+	for _, n := range nodes {
+		if n == nil || isNilNode(n) {
+			continue
+		}
+		ast.Inspect(n, func(x ast.Node) bool {
+			switch t := x.(type) {
+			case *ast.FuncLit:
+				return false
+			case *ast.BlockStmt:
+				return false
+			case *ast.SelectorExpr:
+				if ci.tracked[t.Sel.Name] && !seen[t.Sel.Name] {
+					seen[t.Sel.Name] = true
+					out = append(out, t.Sel.Name)
+				}
+			}
+			return true
+		})
+	}
+	return out
+}
+
+func isNilNode(n ast.Node) bool {
+	switch t := n.(type) {
+	case ast.Expr:
+		return t == nil
+	case ast.Stmt:
+		return t == nil
+	}
+	return false
+}
+
+// header returns the parts of a statement that are evaluated when control reaches it (not nested bodies).
+func header(st ast.Stmt) []ast.Node {
+	var out []ast.Node
+	add := func(n ast.Node) {
+		if n != nil && !isNilNode(n) {
+			out = append(out, n)
+		}
+	}
+	switch x := st.(type) {
+	case *ast.IfStmt:
+		if x.Init != nil {
+			add(x.Init)
+		}
+		add(x.Cond)
+		if e, ok := x.Else.(*ast.IfStmt); ok {
+			out = append(out, header(e)...)
+		}
+	case *ast.ForStmt:
+		if x.Init != nil {
+			add(x.Init)
+		}
+		if x.Cond != nil {
+			add(x.Cond)
+		}
+	case *ast.RangeStmt:
+		add(x.X)
+	case *ast.SwitchStmt:
+		if x.Init != nil {
+			add(x.Init)
+		}
+		if x.Tag != nil {
+			add(x.Tag)
+		}
+	case *ast.TypeSwitchStmt:
+		if x.Init != nil {
+			add(x.Init)
+		}
+		add(x.Assign)
+	case *ast.SelectStmt, *ast.BlockStmt:
+	case *ast.LabeledStmt:
+		return header(x.Stmt)
+	default:
+		add(st)
+	}
+	return out
+}
+
+func (ci *cinst) list(in []ast.Stmt) []ast.Stmt {
+	var out []ast.Stmt
+	for _, st := range in {
+		if es, ok := st.(*ast.ExprStmt); ok {
+			if c, ok := es.X.(*ast.CallExpr); ok {
+				if se, ok := c.Fun.(*ast.SelectorExpr); ok {
+					if id, ok := se.X.(*ast.Ident); ok && id.Name == "vsched" {
+						out = append(out, st) // already instrumented (a list can be visited through a rewritten parent)
+						continue
+					}
+				}
+			}
+		}
+		if ci.gen[st] {
+			out = append(out, st)
+			continue
+		}
+		line := ci.fset.Position(st.Pos()).Line
+		if flds := ci.mentions(header(st)...); len(flds) > 0 {
+			lbl := fmt.Sprintf("%s:%d", ci.rel, line)
+			for _, f := range flds {
+				lbl += " " + f
+			}
+			out = append(out, call("vsched", "Access", strLit(lbl)))
+		}
+		switch x := st.(type) {
+		case *ast.GoStmt:
+			out = append(out, ci.goStmt(x))
+			continue
+		case *ast.SelectStmt:
+			out = append(out, call("vsched", "Point", strLit(fmt.Sprintf("%s:%d select", ci.rel, line))))
+			out = append(out, ci.selectStmt(x))
+			continue
+		case *ast.ExprStmt:
+			if u, ok := x.X.(*ast.UnaryExpr); ok && u.Op == token.ARROW {
+				sel := &ast.SelectStmt{Select: x.Pos(), Body: &ast.BlockStmt{List: []ast.Stmt{&ast.CommClause{Comm: x}}}}
+				out = append(out, call("vsched", "Point", strLit(fmt.Sprintf("%s:%d recv", ci.rel, line))))
+				out = append(out, ci.selectStmt(sel))
+				continue
+			}
+		case *ast.SendStmt:
+			ci.fail(x.Pos(), "send statement outside select: not supported")
+		case *ast.LabeledStmt:
+			if s, ok := x.Stmt.(*ast.SelectStmt); ok && !hasDefault(s) {
+				ci.fail(x.Pos(), "labelled blocking select: not supported")
+			}
+		case *ast.RangeStmt:
+			if se, ok := x.X.(*ast.SelectorExpr); ok && ci.mapFld[se.Sel.Name] {
+				if x.Value != nil {
+					ci.fail(x.Pos(), "range with key and value over map field %s: not supported", se.Sel.Name)
+				}
+				if x.Key != nil {
+					x.Value = x.Key
+					x.Key = ast.NewIdent("_")
+				}
+				x.X = &ast.CallExpr{Fun: &ast.SelectorExpr{X: ast.NewIdent("vsched"), Sel: ast.NewIdent("Keys")}, Args: []ast.Expr{x.X}}
+			}
+		case *ast.AssignStmt:
+			out = append(out, st)
+			for _, l := range x.Lhs {
+				if ix, ok := l.(*ast.IndexExpr); ok {
+					if se, ok := ix.X.(*ast.SelectorExpr); ok && ci.mapFld[se.Sel.Name] {
+						out = append(out, call("vsched", "Note", ix.Index))
+					}
+				}
+			}
+			continue
+		}
+		out = append(out, st)
+	}
+	return out
+}
+
+func hasDefault(s *ast.SelectStmt) bool {
+	for _, c := range s.Body.List {
+		if c.(*ast.CommClause).Comm == nil {
+			return true
+		}
+	}
+	return false
+}
+
+func (ci *cinst) goStmt(g *ast.GoStmt) ast.Stmt {
+	ci.n++
+	c := g.Call
+	var lhs, rhs []ast.Expr
+	fun := c.Fun
+	if _, isLit := fun.(*ast.FuncLit); !isLit {
+		v := ast.NewIdent(fmt.Sprintf("_vf%d", ci.n))
+		lhs, rhs = append(lhs, v), append(rhs, fun)
+		fun = v
+	}
+	var args []ast.Expr
+	for i, a := range c.Args {
+		v := ast.NewIdent(fmt.Sprintf("_va%d_%d", ci.n, i))
+		lhs, rhs = append(lhs, v), append(rhs, a)
+		args = append(args, v)
+	}
+	if c.Ellipsis.IsValid() {
+		ci.fail(g.Pos(), "go statement with variadic spread: not supported")
+	}
+	body := &ast.BlockStmt{List: []ast.Stmt{&ast.ExprStmt{X: &ast.CallExpr{Fun: fun, Args: args}}}}
+	spawn := call("vsched", "Go", &ast.FuncLit{Type: &ast.FuncType{Params: &ast.FieldList{}}, Body: body})
+	if len(lhs) == 0 {
+		return spawn
+	}
+	return &ast.BlockStmt{List: []ast.Stmt{&ast.AssignStmt{Lhs: lhs, Tok: token.DEFINE, Rhs: rhs}, spawn}}
+}
+
+func (ci *cinst) selectStmt(s *ast.SelectStmt) ast.Stmt {
+	if hasDefault(s) {
+		return s
+	}
+	// refuse an unlabelled continue that would bind to the added loop
+	for _, c := range s.Body.List {
+		for _, b := range c.(*ast.CommClause).Body {
+			ast.Inspect(b, func(n ast.Node) bool {
+				switch t := n.(type) {
+				case *ast.ForStmt, *ast.RangeStmt, *ast.FuncLit:
+					return false
+				case *ast.BranchStmt:
+					if t.Tok == token.CONTINUE && t.Label == nil {
+						ci.fail(t.Pos(), "continue inside a blocking select: not supported")
+					}
+				}
+				return true
+			})
+		}
+	}
+	ci.n++
+	d := ast.NewIdent(fmt.Sprintf("_vd%d", ci.n))
+	set := func(v string) ast.Stmt {
+		return &ast.AssignStmt{Lhs: []ast.Expr{d}, Tok: token.ASSIGN, Rhs: []ast.Expr{ast.NewIdent(v)}}
+	}
+	ci.gen[s] = true
+	s.Body.List = append(s.Body.List, &ast.CommClause{Body: []ast.Stmt{set("false"), call("vsched", "WaitExternal")}})
+	return &ast.ForStmt{
+		Init: &ast.AssignStmt{Lhs: []ast.Expr{d}, Tok: token.DEFINE, Rhs: []ast.Expr{ast.NewIdent("false")}},
+		Cond: &ast.UnaryExpr{Op: token.NOT, X: d},
+		Body: &ast.BlockStmt{List: []ast.Stmt{set("true"), s}},
+	}
+}
+
+// verify refuses whatever blocking or spawning construct is left after the rewrite.
+func (ci *cinst) verify(f *ast.File) error {
+	var err error
+	comm := map[ast.Node]bool{}
+	ast.Inspect(f, func(n ast.Node) bool {
+		if err != nil {
+			return false
+		}
+		switch x := n.(type) {
+		case *ast.CommClause:
+			if x.Comm != nil {
+				comm[x.Comm] = true
+				switch c := x.Comm.(type) {
+				case *ast.ExprStmt:
+					comm[c.X] = true
+				case *ast.AssignStmt:
+					for _, r := range c.Rhs {
+						comm[r] = true
+					}
+				}
+			}
+		case *ast.GoStmt:
+			err = fmt.Errorf("%s: go statement outside a statement list", ci.fset.Position(x.Pos()))
+		case *ast.SelectStmt:
+			if !hasDefault(x) {
+				err = fmt.Errorf("%s: blocking select left after rewrite", ci.fset.Position(x.Pos()))
+			}
+		case *ast.UnaryExpr:
+			if x.Op == token.ARROW && !comm[x] {
+				err = fmt.Errorf("%s: channel receive inside an expression: not supported", ci.fset.Position(x.Pos()))
+			}
+		case *ast.SendStmt:
+			if !comm[x] {
+				err = fmt.Errorf("%s: send statement outside select: not supported", ci.fset.Position(x.Pos()))
+			}
+		}
+		return true
+	})
+	return err
 }
